@@ -1,7 +1,7 @@
 (* Dispatcher for the filesystem-level models. *)
 From Coq Require Import List NArith ZArith Bool Arith String.
 From PyFS Require Import Base.PyStr Base.Outcome Base.Render FS.Tree FS.Monad FS.Mode FS.Base
-     FS.Mem FS.Ops FS.Ref FS.Agree FS.Props FS.Wrap FS.ReadOnly FS.Osfs Path.PathSpec.
+     FS.Mem FS.Ops FS.Ref FS.Agree FS.Props FS.Props2 FS.Wrap FS.ReadOnly FS.Osfs Path.PathSpec.
 Import ListNotations.
 Local Open Scope string_scope. Local Open Scope list_scope.
 
@@ -83,6 +83,8 @@ Definition run_fs2 (name : str) (args : list str) : str :=
     sep_by (lit " ") (preserved_history empty_dir ops)
   else if str_eqb name (lit "preserved") then
     with_obs args (fun b a ok o => r_bool (preserved b a o ok))
+  else if str_eqb name (lit "preserved2") then
+    with_obs args (fun b a ok o => r_bool (preserved2 b a o ok))
   else if str_eqb name (lit "ro") then
     (* <k> <calls>: the first k calls on the MemoryFS model, the rest through the read-only wrapper model *)
     match args with
